@@ -24,7 +24,8 @@ Variables lower upper : str -> str.
 Variable parse_tree : mapper -> tz -> res (option T * mapper * tz).
 Variable set_label : T -> option str -> T.
 Variable add_comments : T -> list str -> T.
-Variable c : cfg.
+Variable c : nscfg.
+Variable tlf : tl_factory.
 Variable et : bool.
 
 Hypothesis parse_tree_suf : forall m z ot m' z',
@@ -32,14 +33,14 @@ Hypothesis parse_tree_suf : forall m z ot m' z',
 Hypothesis upper_idem : forall s, upper (upper s) = upper s.
 
 Notation YTS := (y_trees_loop T lower upper parse_tree set_label add_comments c).
-Notation RTS := (r_trees_loop T lower upper parse_tree set_label add_comments c).
+Notation RTS := (r_trees_loop T lower upper parse_tree set_label add_comments c tlf).
 Notation YTB := (y_trees_block T lower upper parse_tree set_label add_comments c et).
-Notation RTB := (r_parse_trees_block T lower upper parse_tree set_label add_comments c et).
+Notation RTB := (r_parse_trees_block T lower upper parse_tree set_label add_comments c tlf et).
 Notation YBL := (y_blocks_loop T lower upper parse_tree set_label add_comments c et).
-Notation RBL := (r_blocks_loop T lower upper parse_tree set_label add_comments c et).
+Notation RBL := (r_blocks_loop T lower upper parse_tree set_label add_comments c tlf et).
 Notation YST := (y_items_from_stream T lower upper parse_tree set_label add_comments c et).
-Notation RST := (r_parse_nexus_stream T lower upper parse_tree set_label add_comments c et).
-Notation trel := (trees_rel T c).
+Notation RST := (r_parse_nexus_stream T lower upper parse_tree set_label add_comments c tlf et).
+Notation trel := (trees_rel T tlf).
 
 Lemma ybind_ok_inv : forall X Y (a : yres T X) (f : X -> yres T Y) out y,
   ybind T a f = (out, Ok y) ->
@@ -115,7 +116,7 @@ Qed.
 
 (* one TREES block *)
 Lemma trees_block_agree : forall fuel k g tls reg,
-  wf T c tls reg None ->
+  wf T tlf tls reg None ->
   trel tls (fst (YTB fuel k g)) (snd (YTB fuel k g)) (RTB fuel (mkRs k g tls reg)).
 Proof.
   intros fuel k g tls reg W. unfold y_trees_block, r_parse_trees_block. cbn [r_k r_g r_tls r_tlreg].
@@ -125,7 +126,7 @@ Proof.
     exists tls, reg, None. repeat split; auto. rewrite app_nil_r. reflexivity.
   - rewrite ybind_ylift.
     destruct (zstep (set_z k (cast_ucase upper (k_z k))) (skip_to_semicolon fuel)) as [k1|e|]; cbn [bind]; try (simpl; reflexivity).
-    pose proof (trees_loop_agree T lower upper parse_tree set_label add_comments c fuel k1 g tls reg
+    pose proof (trees_loop_agree T lower upper parse_tree set_label add_comments c tlf fuel k1 g tls reg
                   (mkLoc (z_cur (cast_ucase upper (k_z k))) None None None None) None W) as HL.
     destruct (YTS fuel k1 g (mkLoc (z_cur (cast_ucase upper (k_z k))) None None None None)) as [out r].
     simpl fst in HL. simpl snd in HL. unfold ybind.
@@ -187,7 +188,7 @@ Qed.
 Ltac kw_ne := let H := fresh in intro H; vm_compute in H; discriminate H.
 
 Lemma blocks_loop_agree : forall fuel k g tls reg,
-  wf T c tls reg None -> NoSets (z_toks (k_z k)) ->
+  wf T tlf tls reg None -> NoSets (z_toks (k_z k)) ->
   trel tls (fst (YBL fuel k g)) (snd (YBL fuel k g)) (RBL fuel (mkRs k g tls reg)).
 Proof.
   induction fuel as [|f IH]; intros k g tls reg W N; [simpl; reflexivity|].
@@ -228,7 +229,7 @@ Proof.
     - destruct HB as [tls' [reg' [tb' [E [W' F]]]]]. rewrite E. cbn [bind].
       apply y_trees_block_suf in EY.
       assert (N5 : NoSets (z_toks (k_z k5))) by (eapply NoSets_suf; eassumption).
-      specialize (IH k5 g5 tls' reg' (wf_forget T c _ _ _ W') N5).
+      specialize (IH k5 g5 tls' reg' (wf_forget T tlf _ _ _ W') N5).
       destruct (YBL f k5 g5) as [out2 r2]. simpl fst in *. simpl snd in *.
       eapply trees_rel_app; eassumption.
     - rewrite HB. reflexivity.
@@ -242,7 +243,7 @@ Proof.
 Qed.
 
 Lemma stream_agree : forall fuel k g tls reg,
-  wf T c tls reg None -> NoSets (z_toks (k_z k)) ->
+  wf T tlf tls reg None -> NoSets (z_toks (k_z k)) ->
   trel tls (fst (YST fuel k g)) (snd (YST fuel k g)) (RST fuel (mkRs k g tls reg)).
 Proof.
   intros fuel k g tls reg W N. unfold y_items_from_stream, r_parse_nexus_stream. cbn [r_k r_g r_tls r_tlreg].
